@@ -50,13 +50,15 @@ func c14Gen(t *rapid.T) c14Plan {
 	p.ReqChunks, p.ReqPauseMs, reqTotal = genParts("req")
 	p.RespParts, p.RespPauseMs, respTotal = genParts("resp")
 	lim := func(total int, label string) int64 {
-		switch rapid.IntRange(0, 4).Draw(t, label) {
+		switch rapid.IntRange(0, 6).Draw(t, label) {
 		case 0:
 			return int64(max(total-1, 1))
 		case 1:
 			return int64(max(total, 1))
 		case 2:
 			return int64(total + 1)
+		case 3, 4: // an absolute limit: an early chunk may overflow and a later, smaller one fit again
+			return rapid.SampledFrom([]int64{1, 16, 100, 1000}).Draw(t, label+"-abs")
 		}
 		return 0
 	}
